@@ -60,7 +60,8 @@ DED = {
          "of two, two linear fix-up loops with variants): a rank r with every earlier fix not later and every fix from r on not earlier "
          "than the instant; insertObs(obs, i), insertObsInChronoOrder and insertObs(obs): one more observation, the others in their "
          "order, the track still sorted.",
-         "extractSpanTime (deepcopy), % with a pattern, removeObsList's sort and duplicate scan are bounded only; `track < n` requires "
+         "extractSpanTime (deepcopy), % with a pattern, removal by timestamps are bounded only (removeObsList with an index list in any "
+         "order is proved: sorted in place by the trusted list.sort model, no duplicate, then __removeObsListById); `track < n` requires "
          "n <= size (a larger n wraps around in Python: recorded behaviour). ASSUMED in __getInsertionIndex (float logarithms, checked by "
          "the bounded part on the expression read from the source): the first dichotomy step is a power of two in [1, N/2], N < 2**47; "
          "termination of the dichotomy loop is not proved."),
